@@ -1,11 +1,12 @@
 #!/bin/sh
-# evaluate benign patches: all 20 quick checks in a scratch copy; expected: every rc=0
+# tools/evalbenign.sh [ids...]  - run all 20 quick checks against each property-preserving patch kept under
+# /verif/benign/<id>/ (scratch copy and worktree as in tools/evalmut.sh; /repo is never touched).
+# Expected: every line "Cnn rc=0". The output replaces benign/<id>/result.txt.
 cd /verif
-for id in "$@"; do
-  b=$(echo $id | cut -c1-3); m=$(echo $id | cut -c4)
-  p=/tmp/wt5/$b/_out/$m/patch.diff
-  [ -f $p ] || { echo "$id: no patch" >> /tmp/bn/summary; continue; }
-  VERIF_JOBS=8 tools/evalmut.sh bn-$id $p > /tmp/bn/$id.out 2>&1
-  echo "$id: $(grep -c 'rc=0' /tmp/bn/$id.out) silent; alarms: $(grep -v 'rc=0' /tmp/bn/$id.out | cut -c1-300 | tr '\n' ' ')" >> /tmp/bn/summary
+for id in ${*:-$(ls benign)}; do
+  p=/verif/benign/$id/patch.diff
+  [ -f $p ] || { echo "$id: no patch"; continue; }
+  VERIF_JOBS=${VERIF_JOBS:-8} tools/evalmut.sh bn-$id $p > /tmp/bn-$id.out 2>&1
+  mv /tmp/bn-$id.out benign/$id/result.txt
+  echo "$id: $(grep -c 'rc=0' benign/$id/result.txt) silent; alarms: $(grep -v 'rc=0' benign/$id/result.txt | cut -c1-300 | tr '\n' ' ')"
 done
-echo batch-done >> /tmp/bn/summary
